@@ -32,8 +32,8 @@ Proof. intros t H. apply (kind_in_weaken _ _ _ H). intros k. destruct k; cbn; in
 Lemma within_primitive : forall t, kind_in t [KIntPos; KFloatPos] = true -> kind_in t primitive_kinds = true.
 Proof. intros t H. apply (kind_in_weaken _ _ _ H). intros k. destruct k; cbn; intros E; try discriminate; reflexivity. Qed.
 
-Lemma lit_sem_other : forall t, tk t <> KTimestamp -> tk t <> KHex -> lit_sem t = true.
-Proof. intros [k s] H1 H2. unfold lit_sem. cbn [tk] in *. destruct k; try reflexivity; congruence. Qed.
+Lemma lit_sem_other : forall t, tk t <> KTimestamp -> tk t <> KHex -> tk t <> KFloatPos -> tk t <> KFloatNeg -> lit_sem t = true.
+Proof. intros [k s] H1 H2 H3 H4. unfold lit_sem. cbn [tk] in *. destruct k; try reflexivity; congruence. Qed.
 
 (* the constant a numeric token visits to *)
 Lemma sv_lit_intpos : forall t, kind_in t [KIntPos] = true -> exists z, sv_lit t = CInt z.
@@ -68,9 +68,7 @@ Proof.
     cbn [v_qual]. rewrite (visit_lit a (ts_primitive a Ha) Sa), (visit_lit b (ts_primitive b Hb) Sb).
     destruct (sv_lit_ts a Ha Sa) as [va Ea]. destruct (sv_lit_ts b Hb Sb) as [vb Eb].
     cbn [sv_qual]. rewrite Ea, Eb. reflexivity.
-  - assert (S : lit_sem n = true).
-    { unfold kind_in in Hw. apply andb_true_iff in Hw. destruct Hw as [H1 _]. destruct n as [k s]. cbn [tk] in H1.
-      destruct k; cbn in H1; try discriminate; reflexivity. }
+  - pose proof Hs as S.
     cbn [v_qual]. rewrite (visit_lit n (within_primitive n Hw) S). cbn [sv_qual].
     destruct (sv_lit_within n Hw) as [[z E]|[f E]]; rewrite E; reflexivity.
   - assert (S : lit_sem n = true).
